@@ -64,4 +64,21 @@ PROPS = {
                         "wake arrives in the same microsecond (documented floor; DESIGN section 10 F2)"],
         "not_decided": ["'always stops' as liveness", "actual timing"],
     },
+    "C04": {
+        "modules": ["contracts.c04_tracking"],
+        "level": "proof",
+        "design_ref": "DESIGN.md section 8, C04",
+        "trusted_base": [
+            "the ops-table function pointers (tracking_impl, mutable_tracking_impl, record_child_modified_impl) return / "
+            "update the tracking record of the storage they are called on (dispatch not verified)",
+            "the chain of TSData parents is finite (induction on its height for notify_child_modified)",
+            "callers pass a concrete mutation time (validate_mutation_view) and time only moves forward "
+            "(no tracking record is newer than the mutation time)",
+        ],
+        "assumptions": [],
+        "not_decided": ["alternatives/proxies (ts_data/proxy.cpp) and TSW", "container `valid` beyond has_current_value_impl",
+                        "that consumers bound to an output read the producer's record (input cursor functions, C13)",
+                        "fixed-shape parents 'only then' (no other writer records on the parent)",
+                        "copy_value_from / move_value_from / invalidate bodies (only mark_modified is under contract)"],
+    },
 }
